@@ -912,9 +912,75 @@ fn bomb_cases() {
     flush_dist();
 }
 
+/// `--inplace` (a C03 / C17 run): `deserialize_in_place` into an array that HOLDS drop-tracked elements (identities
+/// 500..500+N), from an unhinted scripted source of m items (too short, exact, too long) with an optional fault.
+/// Nothing panics.  Direct oracle: by the time the place is dropped every identity that was created -- the old contents
+/// and every element read -- has been released exactly once; on Ok the place holds the m = N items in order.
+/// CASE [-6, N, m, fault (-9 none)]   OBS [outcome, created, released]
+fn inplace_cases() {
+    fn one<N: ArrayLength>(n: usize, m: usize, fault: i128) {
+        emit_case(&[-6, n as i128, m as i128, fault]);
+        let mut items: Vec<i128> = (0..m as i128).collect();
+        let mut tail = -2;
+        if fault >= 0 && (fault as usize) < m {
+            items[fault as usize] = -3;
+        } else if fault >= 0 {
+            tail = -1;
+        }
+        let sc = Script { h0: -1, mode: 0, p: 0, tail, items };
+        let ctl = Ctl::default();
+        track::reset(1_000_000);
+        let mut place: GenericArray<TrD, N> = GenericArray::from_iter((0..N::USIZE).map(|i| TrD(Tr::new(500 + i as i64))));
+        let res = catch(std::panic::AssertUnwindSafe(|| {
+            <GenericArray<TrD, N> as Deserialize>::deserialize_in_place(ScriptDe { sc: &sc, ctl: &ctl }, &mut place).map_err(|e| e.to_string())
+        }));
+        let held: Vec<i64> = place.iter().map(|t| t.0.id).collect();
+        let outcome = match &res {
+            Ok(Ok(())) => 1,
+            Ok(Err(_)) => 0,
+            Err(_) => 6,
+        };
+        drop(place);
+        let mut created: Vec<i64> = vec![];
+        let mut dropped: Vec<i64> = vec![];
+        for e in track::log_from(0) {
+            match e {
+                Ev::New(x) => created.push(x),
+                Ev::Drop(x) => dropped.push(x),
+                _ => {}
+            }
+        }
+        created.sort();
+        dropped.sort();
+        emit_obs(&[outcome, created.len() as i128, dropped.len() as i128]);
+        if created != dropped {
+            emit_oracle(&format!("deserialize_in_place (N = {}, {} items, fault {}): created {:?}, released {:?}", n, m, fault, created, dropped));
+        }
+        if outcome == 1 && (m != n || held != (0..n as i64).collect::<Vec<_>>()) {
+            emit_oracle(&format!("deserialize_in_place (N = {}, {} items): Ok with the place holding {:?}", n, m, held));
+        }
+        if outcome == 6 {
+            emit_oracle("deserialize_in_place panicked although nothing was armed");
+        }
+    }
+    for n in [1usize, 2, 3, 5] {
+        for m in [0, n.saturating_sub(1), n, n + 1, n + 2] {
+            for fault in [-9i128, 0, (n as i128) - 1, n as i128, m as i128] {
+                dist("inplace");
+                harness::dispatch_len!(n, [U1, U2, U3, U5], |N| one::<N>(n, m, fault), panic!("length"));
+            }
+        }
+    }
+    flush_dist();
+}
+
 fn main() {
     let a = args();
     quiet_panics();
+    if a.extra.iter().any(|x| x == "--inplace") {
+        inplace_cases();
+        return;
+    }
     if a.extra.iter().any(|x| x == "--bomb") {
         bomb_cases();
         return;
